@@ -243,7 +243,85 @@ fn encode_tuple(fields: &[F]) -> Vec<u8> {
     head
 }
 
+/// A well-formed but possibly non-canonical layout of the same tuple: the tails of the dynamic fields are
+/// emitted in another order (`order`: a seed for the permutation), `gap` zero words are put between the
+/// head and the first tail, and equal dynamic fields may share one tail. The canonical layout is
+/// (order 0, gap 0, share false).
+#[derive(Clone, Copy, Debug, PartialEq, Eq, serde::Serialize, serde::Deserialize)]
+pub struct Layout {
+    pub order: u8,
+    pub gap: u8,
+    pub share: bool,
+}
+
+impl Layout {
+    pub fn is_canonical(&self, n_dyn: usize) -> bool {
+        self.gap == 0 && !self.share && (n_dyn < 2 || self.order as usize % fact(n_dyn) == 0)
+    }
+}
+
+fn fact(n: usize) -> usize {
+    (1..=n).product::<usize>().max(1)
+}
+
+/// k-th permutation of 0..n (k = 0 is the identity)
+fn permutation(n: usize, mut k: usize) -> Vec<usize> {
+    let mut items: Vec<usize> = (0..n).collect();
+    let mut out = vec![];
+    for i in (1..=n).rev() {
+        let f = fact(i - 1);
+        let idx = (k / f) % i;
+        k %= f;
+        out.push(items.remove(idx));
+    }
+    out
+}
+
+fn encode_tuple_layout(fields: &[F], l: Layout) -> Vec<u8> {
+    let head_len = 32 * fields.len();
+    let dyn_idx: Vec<usize> = fields.iter().enumerate().filter(|(_, f)| matches!(f, F::Dyn(_))).map(|(i, _)| i).collect();
+    let perm = permutation(dyn_idx.len(), l.order as usize % fact(dyn_idx.len()));
+    let mut tail: Vec<u8> = vec![0u8; 32 * l.gap as usize];
+    let mut offsets: std::collections::BTreeMap<usize, usize> = Default::default();
+    let mut placed: Vec<(Vec<u8>, usize)> = vec![];
+    for p in perm {
+        let fi = dyn_idx[p];
+        let F::Dyn(b) = &fields[fi] else { unreachable!() };
+        if l.share {
+            if let Some((_, off)) = placed.iter().find(|(c, _)| c.as_slice() == *b) {
+                offsets.insert(fi, *off);
+                continue;
+            }
+        }
+        let off = head_len + tail.len();
+        offsets.insert(fi, off);
+        placed.push((b.to_vec(), off));
+        tail.extend_from_slice(&word_u64(b.len() as u64));
+        tail.extend_from_slice(b);
+        tail.extend(std::iter::repeat(0u8).take(pad32(b.len()) - b.len()));
+    }
+    let mut head = Vec::with_capacity(head_len);
+    for (i, f) in fields.iter().enumerate() {
+        match f {
+            F::Static(w) => head.extend_from_slice(w),
+            F::Dyn(_) => head.extend_from_slice(&word_u64(offsets[&i] as u64)),
+        }
+    }
+    head.extend(tail);
+    head
+}
+
 impl AMsg {
+    pub fn encode_layout(&self, l: Layout) -> Vec<u8> {
+        match self {
+            AMsg::Transfer { token_id, source, dest, amount, data } => {
+                encode_tuple_layout(&[F::Static(word_u64(0)), F::Static(*token_id), F::Dyn(source), F::Dyn(dest), F::Static(*amount), F::Dyn(data)], l)
+            }
+            AMsg::Deploy { token_id, name, symbol, decimals, minter } => {
+                encode_tuple_layout(&[F::Static(word_u64(1)), F::Static(*token_id), F::Dyn(name), F::Dyn(symbol), F::Static(*decimals), F::Dyn(minter)], l)
+            }
+        }
+    }
     pub fn encode(&self) -> Vec<u8> {
         match self {
             AMsg::Transfer { token_id, source, dest, amount, data } => encode_tuple(&[
@@ -267,6 +345,12 @@ impl AMsg {
 }
 
 impl AHub {
+    pub fn encode_layout(&self, l: Layout) -> Vec<u8> {
+        match self {
+            AHub::Send { chain, inner } => encode_tuple_layout(&[F::Static(word_u64(3)), F::Dyn(chain), F::Dyn(inner)], l),
+            AHub::Receive { chain, inner } => encode_tuple_layout(&[F::Static(word_u64(4)), F::Dyn(chain), F::Dyn(inner)], l),
+        }
+    }
     pub fn encode(&self) -> Vec<u8> {
         match self {
             AHub::Send { chain, inner } => encode_tuple(&[F::Static(word_u64(3)), F::Dyn(chain), F::Dyn(inner)]),
